@@ -622,7 +622,7 @@ pub fn property() -> Property {
                 name: "programs",
                 plan: |t| match t {
                     Tier::Quick => Plan::Random { cases: 150_000, max_len: 700 },
-                    Tier::Thorough => Plan::Random { cases: 2_000_000, max_len: 900 },
+                    Tier::Thorough => Plan::Random { cases: 20_000_000, max_len: 900 },
                 },
                 case: case_small,
                 min_classes: &[("continue-none-deletes-set-variable", 1000), ("backward-line-jump", 1000), ("out-of-range-jump", 500), ("duplicate-label-target", 500), ("on_error-crash", 200), ("error-right-after-jump", 300), ("file-mode", 1000)],
@@ -631,7 +631,7 @@ pub fn property() -> Property {
                 name: "large-programs",
                 plan: |t| match t {
                     Tier::Quick => Plan::Skip,
-                    Tier::Thorough => Plan::Random { cases: 300_000, max_len: 2500 },
+                    Tier::Thorough => Plan::Random { cases: 3_000_000, max_len: 2500 },
                 },
                 case: case_large,
                 min_classes: &[],
